@@ -9,6 +9,7 @@ Monitors:  (1) protocol constants vs. frozen literals        (2) golden vectors 
 """
 import json
 import os
+import random
 import struct
 import threading
 import zlib
@@ -195,12 +196,29 @@ def check_frames(ctx, rng, n):
     from rpyc.core.channel import Channel
     sizes = [0, 1, 2, 100, 2999, 3000, 3001, 3002, 5000, 63993, 63994, 63995, 63996, 64000, 64001, 70000, 127999, 128000,
              128001, 200000]
-    for i in range(n):
-        size = sizes[i % len(sizes)] if i < 2 * len(sizes) else rng.choice(sizes) + rng.randrange(-3, 4)
-        size = max(0, size)
-        compressible = rng.random() < .5 if i >= len(sizes) else (i % 2 == 0)
-        payload = (b"ab" * (size // 2 + 1))[:size] if compressible else rng.randbytes(size)
-        compress = rng.random() < .7
+    # every listed size with and without compression, and incompressible payloads whose COMPRESSED body lands on each length around
+    # the I/O chunk (the frame's second write is then empty, one byte, two bytes ...)
+    fixed = [(sz, False, None) for sz in sizes] + [(sz, True, None) for sz in sizes]
+    for target in range(63990, 64003):
+        nbytes = target - 26
+        for _ in range(10):
+            pl = random.Random("c19/zc/%d" % nbytes).randbytes(nbytes)
+            c = len(zlib.compress(pl, 1))
+            if c == target:
+                fixed.append((nbytes, True, pl))
+                ctx.count("frames_whose_compressed_body_is_at_the_chunk_boundary")
+                break
+            nbytes += target - c
+    for i in range(n + len(fixed)):
+        forced_payload = None
+        if i < len(fixed):
+            size, compress, forced_payload = fixed[i]
+            compressible = (i % 2 == 0) and not compress
+        else:
+            size = max(0, rng.choice(sizes) + rng.randrange(-3, 4))
+            compressible = rng.random() < .5
+            compress = rng.random() < .7
+        payload = forced_payload if forced_payload is not None else ((b"ab" * (size // 2 + 1))[:size] if compressible else rng.randbytes(size))
         ctx.case(("frame", size, compressible, compress))
         st = RecStream()
         Channel(st, compress).send(payload)
